@@ -253,6 +253,46 @@ theorem run_spec (cfg : Cfg) (th : Nat → Sev) (ops : List Op) : run cfg th ops
     | stmt sev tag items named => simp only [run, specRun, statement_spec, ih]
     | overlap sa ta is sb tb js => simp only [run, specRun, overlap_spec, ih]
 
+/-- the specification of histories in which callables reconfigure the thresholds (`Model.Log.runT`) -/
+def specRunT (cfg : Cfg) : (Nat → Sev) → List Op → List Event
+  | _, [] => []
+  | th, .setThr n s :: rest => specRunT cfg (fun k => if k = n then s else th k) rest
+  | th, .stmt sev tag items _ :: rest =>
+    specStatement cfg th sev tag items ++ specRunT cfg (thAfter th (specStatement cfg th sev tag items)) rest
+  | th, .overlap sa ta is sb tb js :: rest =>
+    specOverlap cfg th sa ta is sb tb js ++ specRunT cfg (thAfter th (specOverlap cfg th sa ta is sb tb js)) rest
+
+/-- **Histories whose callables change the thresholds**: every statement is decided by the thresholds
+in force when it starts and delivers all of its items (a threshold raised by one of its own callables
+neither silences the rest of it nor un-delivers it); later statements see the new thresholds. -/
+theorem runT_spec (cfg : Cfg) (th : Nat → Sev) (ops : List Op) : runT cfg th ops = specRunT cfg th ops := by
+  induction ops generalizing th with
+  | nil => rfl
+  | cons op rest ih =>
+    cases op with
+    | setThr n s => simp only [runT, specRunT]; exact ih _
+    | stmt sev tag items named => simp only [runT, specRunT, statement_spec, ih]
+    | overlap sa ta is sb tb js => simp only [runT, specRunT, overlap_spec, ih]
+
+/-- without such callables `runT` is `run` -/
+theorem thAfter_plain (th : Nat → Sev) (evs : List Event)
+    (h : ∀ e ∈ evs, match e with | .lazyCall id => id < 900 | _ => True) : thAfter th evs = th := by
+  unfold thAfter
+  induction evs generalizing th with
+  | nil => rfl
+  | cons e rest ih =>
+    simp only [List.foldl_cons]
+    have he := h e (by simp)
+    have hr : ∀ e ∈ rest, match e with | .lazyCall id => id < 900 | _ => True := fun x hx => h x (by simp [hx])
+    cases e with
+    | lazyCall id =>
+      simp only at he
+      have : ¬ id ≥ 900 := by omega
+      simp only [this, if_false]
+      exact ih th hr
+    | fmt a b c => exact ih th hr
+    | sink a b c d => exact ih th hr
+
 /-- exactly once: an enabled statement yields exactly one `fmt` event -/
 theorem exactly_once (cfg : Cfg) (th : Nat → Sev) (sev : Sev) (tag : Option Str) (items : List Item)
     (named : Option Nat) (hmin : ¬ sev < cfg.minSev) (hf : evalF th cfg.filter sev tag = true) :
